@@ -3,7 +3,7 @@
    The modifier and the library rows are canonical rationals (Qc); channels 0,1,2 = 'x','y','z'. *)
 From Coq Require Import List Bool ZArith QArith Qcanon.
 From RecordUpdate Require Import RecordSet.
-From PV Require Import Base.AList Base.QUtil Model.EventLib Model.Seq.
+From PV Require Import Base.AList Base.QUtil Model.EventLib Model.Seq Gen.GenGradOps.
 Import ListNotations RecordSetNotations.
 Open Scope Z_scope.
 
@@ -38,7 +38,8 @@ Fixpoint scale_at (m : Qc) (idx : list nat) (n : nat) (k : key) : key :=
   | x :: r => (if existsb (Nat.eqb n) idx then (x * m)%Qc else x) :: scale_at m idx (S n) r
   end.
 Definition scale_row (ty : Z) (m : Qc) (data : key) : key :=
-  scale_at m (if ty =? tag_g then [0; 4; 5]%nat else [0%nat]) 0 data.
+  scale_at m (if ty =? tag_g then ma_cols_all ++ ma_cols_g else ma_cols_all) 0 data.
+(* the column lists are read from the source on every run (Gen/GenGradOps.v): currently [0] and [4; 5] *)
 
 (* the loop `for grad_id in selected_events` (sequence.py:861-870); stops at the first KeyError *)
 Fixpoint mod_loop (m : Qc) (gl : klib) (ids : list Z) : klib * option maerr :=
